@@ -25,6 +25,97 @@ let () = register "c14" (fun f ->
     end
   | _ -> failwith "c14: bad case")
 
+(* ---- framing ---- *)
+let err_name (e : err) : string = match e with
+  | ErrEmpty -> "ErrEmpty" | ErrTooShort -> "ErrTooShort" | ErrPreamble -> "ErrPreamble"
+  | ErrReserved -> "ErrReserved" | ErrZeroLength -> "ErrZeroLength" | ErrIncomplete -> "ErrIncomplete"
+  | ErrCRC -> "ErrCRC" | ErrNotMSM -> "ErrNotMSM" | ErrWrongType -> "ErrWrongType"
+  | ErrCellMask -> "ErrCellMask" | ErrOverrun -> "ErrOverrun" | ErrTimestampRange -> "ErrTimestampRange"
+  | ErrGlonassMillis -> "ErrGlonassMillis" | ErrUnknownType -> "ErrUnknownType" | ErrFuel -> "ErrFuel"
+let opt_err o = match o with None -> "-" | Some e -> err_name e
+
+let msg_fields (m : msg) : string =
+  let sent = match m.msent with
+    | None -> "-" | Some (Ok t) -> string_of_int (int_of_z t)
+    | Some (Err e) -> "E:" ^ err_name e | Some Panic -> "panic" in
+  let sow = match m.msow with None -> "-" | Some t -> string_of_int (int_of_z t) in
+  Printf.sprintf "%d,%s,%s,%d,%s,%s" (int_of_z m.mtype) (hex_of_bytes m.raw) (opt_err m.memsg)
+    (int_of_n m.mts) sent sow
+
+(* oracle for C01/C02: every typed message is a valid frame whose type is the frame's;
+   the raw bytes concatenate to the input; no message is empty *)
+let () = register "stream" (fun f ->
+  match f with
+  | _ :: t :: _lvl :: hx :: _ ->
+    let input = bytes_of_hex hx in
+    let h = new_handler (z_of_int (int_of_string t)) in
+    (match handle_stream h input with
+     | Ok (ms, _) ->
+       Printf.sprintf "n=%d %s closed=1" (List.length ms) (String.concat ";" (List.map msg_fields ms))
+     | Err e -> "err " ^ err_name e
+     | Panic -> "panic")
+  | _ -> failwith "stream: bad case")
+
+let () = register "getmsg" (fun f ->
+  match f with
+  | _ :: t :: _lvl :: hx :: _ ->
+    let input = bytes_of_hex hx in
+    let h = new_handler (z_of_int (int_of_string t)) in
+    (match get_message h input with
+     | Ok (None, _) -> "nil ret=ErrEmpty"
+     | Ok (Some m, _) -> msg_fields m ^ " ret=" ^ opt_err m.merr
+     | Err e -> "err " ^ err_name e
+     | Panic -> "panic")
+  | _ -> failwith "getmsg: bad case")
+
+(* oracles on implementation observations: "validframe <hex>" -> 1/0 and the frame type *)
+let () = register "validframe" (fun f ->
+  match f with
+  | [hx] -> let b = bytes_of_hex hx in
+    Printf.sprintf "%d %d" (if valid_frameb b then 1 else 0) (int_of_n (frame_type b))
+  | _ -> failwith "validframe: bad case")
+
+(* ---- time histories (C06, C17) ---- *)
+let constellation_of_char c = match c with
+  | 'G' -> GPS | 'E' -> Galileo | 'R' -> Glonass | 'C' -> Beidou | _ -> failwith "bad constellation"
+(* event syntax: O<c><4|7>:<u ns>  |  B<c><4|7>:<ts> *)
+let parse_event (s : string) : event =
+  let c = constellation_of_char s.[1] in
+  let k7 = s.[2] = '7' in
+  let v = String.sub s 4 (String.length s - 4) in
+  if s.[0] = 'O' then Obs (c, k7, z_of_int (int_of_string v)) else Bad (c, k7, n_of_int (int_of_string v))
+let report_str ((sent, sow) : (z res option) * (z option)) : string =
+  let a = match sent with None -> "-" | Some (Ok t) -> string_of_int (int_of_z t)
+    | Some (Err e) -> "E:" ^ err_name e | Some Panic -> "panic" in
+  let b = match sow with None -> "-" | Some t -> string_of_int (int_of_z t) in
+  a ^ "," ^ b
+
+(* histspec <need_after 0|1> <T> ev...  ->  adm=<0|1> frames=<hex,hex,..> exp=<sent,sow;..> *)
+let () = register "histspec" (fun f ->
+  match f with
+  | _ :: na :: t :: evs ->
+    let evs = List.map parse_event evs in
+    let tz = z_of_int (int_of_string t) in
+    let adm = admissibleb (na = "1") tz evs in
+    let frames = List.map (fun e -> hex_of_bytes (event_frame e)) evs in
+    let exp = List.map (fun e -> match answer e with
+      | Some (u, s) -> string_of_int (int_of_z u) ^ "," ^ string_of_int (int_of_z s)
+      | None -> "E,-") evs in
+    Printf.sprintf "adm=%d frames=%s exp=%s" (if adm then 1 else 0) (String.concat "," frames) (String.concat ";" exp)
+  | _ -> failwith "histspec: bad case")
+
+(* hist <T> <lvl> <mode> <hex,hex,...>  ->  sent,sow;...   (model: GetMessage frame by frame) *)
+let () = register "hist" (fun f ->
+  match f with
+  | _ :: t :: _lvl :: _mode :: frames :: _ ->
+    let fs = List.map bytes_of_hex (String.split_on_char ',' frames) in
+    let h = new_handler (z_of_int (int_of_string t)) in
+    (match run_frames h fs with
+     | Ok (rs, _) -> String.concat ";" (List.map report_str rs)
+     | Err e -> "err " ^ err_name e
+     | Panic -> "panic")
+  | _ -> failwith "hist: bad case")
+
 let () =
   if Array.length Sys.argv < 2 then (prerr_endline "usage: model <property> < cases"; exit 2);
   let r = try Hashtbl.find runners Sys.argv.(1) with Not_found -> (prerr_endline "model: unknown property"; exit 2) in
